@@ -8,7 +8,7 @@ EXPLANATION = (
     "event set must be left as it was found: the lower bound used by the add guard must not have been advanced and a same-instant "
     "event taken from the front of the FIFO must go back to the front — today the fetch + generic add put-back violates both "
     "(KNOWN FINDING F4, keyed by that call site); (R3) the limit path writes neither the clock nor the dispatched-event counter "
-    "(a paused runtime reports the last dispatched event); (R4) after fetching, stop-or-dispatch depends on limit.applies alone. Decides these necessary conditions only; not equivalence over all step schedules.")
+    "(a paused runtime reports the last dispatched event); (R4) after fetching, stop-or-dispatch depends on limit.applies alone; (R5) the put-back's placement rule: an event at the set's current instant goes to the same-instant FIFO (drained first) independent of anything else stored. Decides these necessary conditions only; not equivalence over all step schedules.")
 ASSUMPTIONS = ["C11.R1/R2 (limit tables and ordinal) hold"]
 USES_B = True
 
@@ -209,8 +209,16 @@ def r4_stop_decision(ctx, cfg='A'):
     ctx.floor('post-fetch paths of dispatch_event', n, 2)
 
 
+def r5_putback_placement(ctx, cfg='A'):
+    """the put-back relies on: an event whose time equals the event set's current instant goes to the same-instant FIFO, which is
+    drained first — whatever else is stored (shared with C03.R2)"""
+    from . import C03
+    C03.r2_zero_container(ctx, cfg, 'C10.R5')
+
+
 def run(ctx):
     for cfg in [c for c in ('A', 'B') if c in ctx.progs]:
+        r5_putback_placement(ctx, cfg)
         r1_step_wrappers(ctx, cfg)
         r2_limit_path(ctx, cfg)
         r3_paused_state(ctx, cfg)
